@@ -254,6 +254,14 @@ fn base_list() -> &'static Vec<String> {
     out.push("gen".to_string());
     out.push("alpha:A1".to_string());
     out.push("alpha:F".to_string());
+    // valid but degenerate constructs no shipped example has (tools/gen_edge_models.py)
+    if let Ok(rd) = std::fs::read_dir(data_dir().join("edge")) {
+      let mut names: Vec<String> = rd.filter_map(|e| e.ok()).map(|e| e.file_name().to_string_lossy().to_string()).filter(|n| n.ends_with(".dmn")).collect();
+      names.sort();
+      for n in names {
+        out.push(format!("edge:{}", n));
+      }
+    }
     out
   })
 }
